@@ -56,7 +56,7 @@ func runC18(p *Prog, r *Report) {
 			// constants naming forbidden packages in any argument
 			for _, a := range l.Args {
 				if s, ok := constString(info, a); ok {
-					if (s == "reflect" || s == "unsafe" || strings.HasPrefix(s, "reflect.") || strings.HasPrefix(s, "unsafe.")) && !(l.Name == "Qual" && literalQualAllowed[c.Encl.Name()][s] != "") {
+					if (s == "reflect" || s == "unsafe" || strings.HasPrefix(s, "reflect.") || strings.HasPrefix(s, "unsafe.")) && !(l.Name == "Qual" && literalQualAllowed[p.anchorFor(c.Encl, mapKeys(literalQualAllowed))][s] != "") {
 						r.Bad(c.Encl.Name()+"/jen."+l.Name+"("+s+")", p.PosStr(l.Call.Pos()), "emission argument names package "+s+": generated code must be reflection-free and must not use unsafe")
 					}
 				}
@@ -289,9 +289,9 @@ func qualOrigin(p *Prog, c *Chain, arg ast.Expr) (string, bool) {
 	info := c.Pkg.TypesInfo
 	arg = ast.Unparen(arg)
 	if s, ok := constString(info, arg); ok {
-		if why, ok := literalQualAllowed[c.Encl.Name()][s]; ok {
+		if why, ok := literalQualAllowed[p.anchorFor(c.Encl, mapKeys(literalQualAllowed))][s]; ok {
 			// sub-fact for fmt in caseAction: inside a case of EnumActionPanic/EnumActionError
-			if c.Encl.Name() == "builder.caseAction" {
+			if p.anchorFor(c.Encl, mapKeys(literalQualAllowed)) == "builder.caseAction" && c.Encl.Name() == "builder.caseAction" {
 				okArm := false
 				for _, g := range guardsOf(c.Stack, c.Outer) {
 					if g.Cond != nil && g.Tag != nil {
@@ -304,7 +304,7 @@ func qualOrigin(p *Prog, c *Chain, arg ast.Expr) (string, bool) {
 					return "literal \"fmt\" in caseAction outside the @panic/@error arms", false
 				}
 			}
-			if c.Encl.Name() == "xtype.toCodeBasic" {
+			if p.anchorFor(c.Encl, mapKeys(literalQualAllowed)) == "xtype.toCodeBasic" && c.Encl.Name() == "xtype.toCodeBasic" {
 				okArm := false
 				for _, g := range guardsOf(c.Stack, c.Outer) {
 					if g.Cond != nil && exprString(g.Cond) == "types.UnsafePointer" {
